@@ -119,6 +119,26 @@ func c15Main(r *run.Runner) {
 		}
 	}
 	r.Sweep("statement-order-and-separators", int64(len(reorder)), func(w *run.Worker, item int64) { c15One(w, reorder[item]) })
+	// long quoted bodies left open at the end of a line, with quotes and semicolons on later lines
+	var lens15 []int
+	for n := 0; n <= 70; n++ {
+		lens15 = append(lens15, n)
+	}
+	lens15 = append(lens15, 127, 128, 129, 255, 256, 257, 1000)
+	r.Sweep("long-open-quotes", int64(len(lens15)), func(w *run.Worker, item int64) {
+		n := lens15[item]
+		for _, fill := range []string{"A", " ", "x"} {
+			for _, special := range []string{"", "``", "''", "\\", "`", "'", "\"", "``x``", ";"} {
+				for _, pos := range []int{0, n / 2, n} {
+					body := strings.Repeat(fill, pos) + special + strings.Repeat(fill, n-pos)
+					for _, q := range []string{"'", "\"", "`"} {
+						c15One(w, "T | where "+q+body+"\n| take `n`; U | where x == 'y' // `\n; V")
+						c15One(w, "let a = "+q+body+";\nlet b = "+q+"; c"+q+"; T")
+					}
+				}
+			}
+		}
+	})
 	r.Sweep("semicolon-insertion", int64(len(corpus)), func(w *run.Worker, item int64) {
 		p := corpus[item]
 		for off := 0; off <= len(p); off++ {
